@@ -10,10 +10,18 @@ EXTENDS HpkeProps, Json
 
 CONSTANTS AeadC,        \* AEAD code point of this run (1, 2, 3 or 65535)
           Starts,       \* "boundary" | "zero": which start positions Init offers
+          Menu,         \* "none" | "small" | "full": what the adversary may deliver
+          BnKind,       \* base nonce of s / r: "leaf" (opaque) or a literal pattern "zeros" | "ones" | "alt"
           Emit          \* TRUE: print every distinct (state, last call) as JSON
 
 TheSuite == <<KEM_X25519, KDF_SHA256, AeadC>>
-Km(n) == [key |-> Leaf("key" \o n, Nk(AeadC)), bn |-> Leaf("bn" \o n, Nn(AeadC)), exp |-> Leaf("exp" \o n, 32)]
+\* literal base nonces make ComputeNonce fully concrete inside TLA+ (XOR is then computed here, and
+\* all-ones / alternating bits tell XOR from OR and ADD)
+BaseNonce(n) == CASE BnKind = "leaf"  -> Leaf("bn" \o n, Nn(AeadC))
+                  [] BnKind = "zeros" -> Lit(Zeros(Nn(AeadC)))
+                  [] BnKind = "ones"  -> Lit(Fill(255, Nn(AeadC)))
+                  [] BnKind = "alt"   -> Lit([i \in 1..Nn(AeadC) |-> IF i % 2 = 0 THEN 85 ELSE 170])
+Km(n) == [key |-> Leaf("key" \o n, Nk(AeadC)), bn |-> BaseNonce(n), exp |-> Leaf("exp" \o n, 32)]
 RawS == [c |-> "s", role |-> "S", suite |-> TheSuite] @@ Km("1")
 RawR == [c |-> "r", role |-> "R", suite |-> TheSuite] @@ Km("1")
 RawX == [c |-> "x", role |-> "S", suite |-> TheSuite] @@ Km("2")
@@ -27,14 +35,16 @@ Boundary ==
     \cup {ByteInc(AllOnes(k)) : k \in 1..7}
     \cup { <<0, 255, 255, 255, 255, 255, 255, 255>>, <<255, 0, 0, 0, 0, 0, 0, 0>>,
            <<170, 85, 170, 85, 170, 85, 170, 255>>, <<255, 255, 255, 254, 255, 255, 255, 255>> }
-StartSet == IF Starts = "boundary" THEN Boundary ELSE {Seq0}
+Edge == {Seq0, AllOnes(4), [AllOnes(8) EXCEPT ![8] = 254], AllOnes(8)}
+StartSet == CASE Starts = "boundary" -> Boundary [] Starts = "edge" -> Edge [] OTHER -> {Seq0}
 
 \* the receiver starts where the sender starts, one before, or one after (when they exist)
-RecvStarts(b) == {b} \cup (IF b # Seq0 /\ Starts = "boundary" THEN {[b EXCEPT ![8] = IF @ = 0 THEN 0 ELSE @ - 1]} ELSE {})
+RecvStarts(b) == {b} \cup (IF b # Seq0 /\ Starts # "zero" THEN {[b EXCEPT ![8] = IF @ = 0 THEN 0 ELSE @ - 1]} ELSE {})
 
 MC_Init ==
-    \E b \in StartSet : \E br \in RecvStarts(b) :
-        /\ ctx = ("s" :> [RawCtxOf(RawS) EXCEPT !.seq = b]) @@ ("r" :> [RawCtxOf(RawR) EXCEPT !.seq = br])
+    \E b \in StartSet : \E br \in RecvStarts(b) : \E o \in (IF b = SeqMax THEN {FALSE, TRUE} ELSE {FALSE}) :
+        /\ ctx = ("s" :> [RawCtxOf(RawS) EXCEPT !.seq = b, !.ovf = o])
+                 @@ ("r" :> [RawCtxOf(RawR) EXCEPT !.seq = br, !.ovf = (o /\ br = SeqMax)])
                  @@ ("x" :> RawCtxOf(RawX))
         /\ sent = ("s" :> <<>>) @@ ("x" :> <<>>)
         /\ rcvd = ("r" :> <<>>)
@@ -43,8 +53,8 @@ MC_Init ==
         /\ last = [op |-> "init"]
         /\ hist = IF RecordHist
                   THEN << RawCtxRec(RawS), RawCtxRec(RawR), RawCtxRec(RawX),
-                          SetSeqRec("s", [seq |-> Seq0, ovf |-> FALSE], [seq |-> b, ovf |-> FALSE]),
-                          SetSeqRec("r", [seq |-> Seq0, ovf |-> FALSE], [seq |-> br, ovf |-> FALSE]) >>
+                          SetSeqRec("s", [seq |-> Seq0, ovf |-> FALSE], [seq |-> b, ovf |-> o]),
+                          SetSeqRec("r", [seq |-> Seq0, ovf |-> FALSE], [seq |-> br, ovf |-> (o /\ br = SeqMax)]) >>
                   ELSE <<>>
 
 \* the n-th message of a sender has its own plaintext and aad (lengths straddle block sizes)
@@ -55,7 +65,13 @@ MC_AadMenu(n) == {Leaf("aad" \o ToString(n), AadLens[(n % 6) + 1])}
 
 MsgIdx == 1..MaxSeals
 D(k, s, i, j, n) == [k |-> k, s |-> s, i |-> i, j |-> j, n |-> n]
-MC_DeliveryMenu ==
+SmallMenu ==
+    {D("msg", s, i, 0, 0) : s \in {"s", "x"}, i \in MsgIdx}
+    \cup {D("flipct", "s", i, 0, 0) : i \in MsgIdx} \cup {D("fliptag", "s", i, 0, 7) : i \in MsgIdx}
+    \cup {D("trunc", "s", i, 0, 1) : i \in MsgIdx} \cup {D("extend", "s", i, 0, 1) : i \in MsgIdx}
+    \cup {D("swapaad", "s", i, j, 0) : i \in MsgIdx, j \in MsgIdx}
+    \cup {D("garbage", "s", 3, 16, 17), D("garbage", "s", 0, 0, 15), D("garbage", "s", 0, 0, 0)}
+FullMenu ==
     {D("msg", s, i, 0, 0) : s \in {"s", "x"}, i \in MsgIdx}
     \cup {D(k, "s", i, 0, n) : k \in {"flipct", "fliptag", "flipaad"}, i \in MsgIdx, n \in {0, 7}}
     \cup {D(k, "s", i, 0, n) : k \in {"trunc", "truncfront", "extend", "prepend", "extendbody",
@@ -65,13 +81,16 @@ MC_DeliveryMenu ==
     \cup {D("garbage", "s", a, 16, n) : a \in {0, 3}, n \in {0, 1, 15, 16, 17}}
     \cup {D("garbage", "s", 0, 0, n) : n \in {0, 1, 15}}        \* shorter than a tag (alloc form only)
 
+MC_DeliveryMenu == CASE Menu = "none" -> {} [] Menu = "small" -> SmallMenu [] Menu = "full" -> FullMenu
+
 MC_ExportMenu == {<<<<>>, 32>>, <<Leaf("ectx", 7), 32>>, <<Leaf("ectx", 7), 0>>,
                   <<<<>>, 8160>>, <<<<>>, 8161>>}
 
 NoSetups(x) == {}
+\* one line per distinct (state, last call): everything a one-transition test needs
 PrintState ==
-    Emit => PrintT(ToJson([ctx |-> [c \in DOMAIN ctx |-> SeqState(ctx[c])], last |-> last,
-                           nsent |-> [c \in DOMAIN sent |-> Len(sent[c])]]))
+    (Emit /\ last.op # "init") =>
+        PrintT(ToJson([last |-> last, sent |-> sent, raw |-> <<RawCtxRec(RawS), RawCtxRec(RawR), RawCtxRec(RawX)>>]))
 
 Done == used["seal"] + used["open"] + used["export"] + used["setseq"] >= MaxSeals + MaxOpens + MaxExports
 PrintHist == (RecordHist /\ ~ENABLED Next) => PrintT(ToJson(hist))
